@@ -74,8 +74,10 @@ def main():
         sh("git -C /repo checkout -- .")
     d = HERE / "seeded" / name
     d.mkdir(parents=True, exist_ok=True)
-    shutil.copy(patch, d / "patch.diff")
-    shutil.copy(demo, d / demo.name)
+    if patch != (d / "patch.diff").resolve():
+        shutil.copy(patch, d / "patch.diff")
+    if demo != (d / demo.name).resolve():
+        shutil.copy(demo, d / demo.name)
     (d / "meta.json").write_text(json.dumps(meta, indent=1))
     print("stored in", d, "caught_by:", meta.get("caught_by"))
     return 0
